@@ -272,12 +272,13 @@ fn generate(r: &mut Rng, n: usize, tier: &str) -> Vec<String> {
         "eng=rocks|1/-;2/3/2/1".to_string(),
         "eng=dec|-".to_string(),
     ];
-    let rocks_every = if tier == "thorough" { 15 } else { 60 };
+    let rocks_every = if tier == "thorough" { 20 } else { 100 };
     for i in 0..n {
         let k = 1 + r.below(4) as usize;
         let saves: Vec<String> = (0..k).map(|_| gen_hs(r)).collect();
         if i % rocks_every == rocks_every - 1 {
-            out.push(format!("eng=rocks|{}", saves.join(";")));
+            // opening RocksDB is slow (3 reopens per save): at most 2 saves per case
+            out.push(format!("eng=rocks|{}", saves[..saves.len().min(2)].join(";")));
         } else if i % 97 == 50 {
             out.push(format!("eng=strace|{}", saves.join(";")));
         } else if i % 3 == 2 {
